@@ -2,7 +2,7 @@
 # (`extend_range_protocol.rs`, `prepare_workers` / `run_worker` of `leaf_stage.rs` and `branch_stage.rs`).
 # Lean: Store/ExtRange*.lean, Props/C01_ExtRange, C13_ExtRange, C16_ExtRange, C19_ExtRange; driver mode `extrange`;
 # harness `vharness extrange` (hooks H17 + H21).  Notes: notes/Q30.md
-EXTRANGE_RUN = {"cmd": "extrange", "mode": "extrange", "cases": {"quick": 72, "thorough": 2400}, "shards": {"quick": 4, "thorough": 16}}
+EXTRANGE_RUN = {"cmd": "extrange", "mode": "extrange", "cases": {"quick": 64, "thorough": 2400}, "shards": {"quick": 4, "thorough": 16}}
 EXTRANGE_RULE = (
     " extrange runs: per case a branch level and a leaf level of 3..12 hand-built nodes (sizes around the merge threshold / the capacity, capacity measured on a probe node) "
     "and a change list composed of per-node shapes that force range extensions (tail deleted -> under-full, node emptied, node reduced to 1..4 items, head / middle deleted, bulk insert -> split, "
